@@ -69,6 +69,33 @@ pub fn exec_history(ops: &str) -> String {
                     Ok(v) => format!("{:x}", v),
                     Err(_) => "e".into(),
                 },
+                // word / long accesses through the CPU's helpers (big-endian composition of byte accesses)
+                "R" => match cpu.vh_read_w(h(rest)) {
+                    Ok(v) => format!("{:x}", v),
+                    Err(_) => "e".into(),
+                },
+                "L" => match cpu.vh_read_l(h(rest)) {
+                    Ok(v) => format!("{:x}", v),
+                    Err(_) => "e".into(),
+                },
+                "W" => {
+                    let mut it = rest.split(':');
+                    let a = h(it.next().unwrap_or("0"));
+                    let v = h(it.next().unwrap_or("0")) as u16;
+                    match cpu.vh_write_w(a, v) {
+                        Ok(()) => "k".into(),
+                        Err(_) => "e".into(),
+                    }
+                }
+                "M" => {
+                    let mut it = rest.split(':');
+                    let a = h(it.next().unwrap_or("0"));
+                    let v = h(it.next().unwrap_or("0"));
+                    match cpu.vh_write_l(a, v) {
+                        Ok(()) => "k".into(),
+                        Err(_) => "e".into(),
+                    }
+                }
                 "p" => {
                     let mut it = rest.split(':');
                     let p = h(it.next().unwrap_or("0")) as u8;
@@ -189,6 +216,18 @@ impl Mode for BusMode {
                         }
                     }
                 }
+                // word / long accesses at every region boundary +-4, even and odd addresses
+                if ctx.shard == 0 {
+                    for &e in PLAIN_EDGES.iter().chain(HOLES.iter()) {
+                        for d in -5i64..=5 {
+                            let a = (e as i64 + d).max(0) as u32;
+                            let v = rng.u32() | 0x01020304;
+                            emit(format!("bus09 W{:x}:{:x};R{:x};r{:x};r{:x}", a, v & 0xffff, a, a, a.wrapping_add(1)));
+                            emit(format!("bus09 M{:x}:{:x};L{:x};R{:x};R{:x};r{:x};r{:x};r{:x};r{:x}", a, v, a, a, a.wrapping_add(2), a, a.wrapping_add(1), a.wrapping_add(2), a.wrapping_add(3)));
+                            emit(format!("bus09 w{:x}:{:x};w{:x}:{:x};w{:x}:{:x};w{:x}:{:x};R{:x};L{:x}", a, v & 0xff, a.wrapping_add(1), (v >> 8) & 0xff, a.wrapping_add(2), (v >> 16) & 0xff, a.wrapping_add(3), v >> 24, a, a));
+                        }
+                    }
+                }
                 // histories of interleaved writes and reads
                 let n = if ctx.quick() { 12_000 } else { 200_000 } / ctx.nshards;
                 for _ in 0..n {
@@ -205,10 +244,13 @@ impl Mode for BusMode {
                         };
                         // neighbours, so that word/long style adjacency is exercised
                         let a = if rng.chance(1, 4) { a.wrapping_add(rng.range(0, 3) as u32) } else { a };
-                        if rng.chance(1, 2) {
-                            ops.push(format!("w{:x}:{:x}", a, rng.u8()));
-                        } else {
-                            ops.push(format!("r{:x}", a));
+                        match rng.below(10) {
+                            0..=2 => ops.push(format!("w{:x}:{:x}", a, rng.u8())),
+                            3..=5 => ops.push(format!("r{:x}", a)),
+                            6 => ops.push(format!("W{:x}:{:x}", a, rng.u16())),
+                            7 => ops.push(format!("R{:x}", a)),
+                            8 => ops.push(format!("M{:x}:{:x}", a, rng.u32())),
+                            _ => ops.push(format!("L{:x}", a)),
                         }
                     }
                     emit(format!("bus09 {}", ops.join(";")));
@@ -429,8 +471,13 @@ impl Mode for BusMode {
             if imp_ops != spec_ops {
                 why = format!("per-op results: impl {} spec {}", imp_ops, spec_ops);
             } else if word == "bus09" {
-                let im = mem_by_addr(field(imp, "mem").unwrap_or(""));
-                let sm = field(&s, "mem").unwrap_or("").to_string();
+                // bytes a straddling (failing) word/long write may or may not have stored are left open by the Spec
+                let dc: Vec<&str> = field(&s, "dc").unwrap_or("").split(',').filter(|e| !e.is_empty()).collect();
+                let strip = |m: String| -> String {
+                    m.split(',').filter(|e| !e.is_empty() && !dc.contains(&e.split(':').next().unwrap_or(""))).collect::<Vec<_>>().join(",")
+                };
+                let im = strip(mem_by_addr(field(imp, "mem").unwrap_or("")));
+                let sm = strip(field(&s, "mem").unwrap_or("").to_string());
                 if im != sm {
                     why = format!("final memory: impl {} spec {}", im, sm);
                 }
